@@ -12,6 +12,10 @@
       ADD, REMOVE := none | MANY
     (req METHOD SLASH (path C…) (accept (MEDIA (P…) ERR)…) (query K…) (body PATCH POST REL MEM))
                                                      → (out WRITTEN REFSTATUS)
+    (newschema TYPE…)                                → accept | reject   -- MemberNames.newSchemaOK (NewSchema's name
+                                                       checks) on that schema; the current schema is kept
+    (membername K)                                   → (name VALIDATE SPEC GRAMMAR)   -- validateMemberName (transliterated Go),
+                                                       Spec.memberName, MemberNames.recommendedB (specification text)
     (inject ST…)                                     → (out WRITTEN FIRSTERRORSTATUS)   -- serveResponse on a
                                                        document with exactly these errors (verif hook)
       PATCH := err | (ok T I)   POST := err | (ok T)   REL, MEM := err | ok
@@ -25,6 +29,8 @@ import ApiFu.Common.Sexp
 import ApiFu.Common.Loop
 import ApiFu.C19.Model
 import ApiFu.C19.Spec
+import ApiFu.C19.EmittedNames
+import ApiFu.C19.MemberNamesDecide
 
 open ApiFu ApiFu.C19
 
@@ -214,6 +220,14 @@ def handle (s : Schema) (line : String) : Schema × String :=
     match ts.mapM parseType with
     | some s' => (s', "ok")
     | none => (s, "bad-schema")
+  | some (.list (.atom "newschema" :: ts)) =>
+    match ts.mapM parseType with
+    | some s' => (s, if MemberNames.newSchemaOK s' then "accept" else "reject")
+    | none => (s, "bad-schema")
+  | some (.list [.atom "membername", .atom k]) =>
+    let n := k.toList
+    (s, toString (Sexp.node "name" [.atom (toString (validateMemberName n)), .atom (toString (Spec.memberName n)),
+      .atom (toString (MemberNames.recommendedB n))]))
   | some (.list (.atom "inject" :: sts)) =>
     match sts.mapM parseST with
     | some l =>
